@@ -39,7 +39,7 @@ def oracle(ctx, n, sub="oracle"):
 
 def search(ctx, factor):
     before = len(ctx.fails)
-    oracle(ctx, ctx.scale(4000, 60000) * factor, "search")
+    oracle(ctx, ctx.scale(15000, 80000) * factor, "search")
     found = ctx.fails[before:]
     del ctx.fails[before:]
     return found
@@ -59,7 +59,7 @@ def correspondence(ctx):
     if rc != 0:
         ctx.diag.append("extracted model crashed printing its clauses: " + out[-300:])
         return
-    args = [os.path.join(C.BIN, "c15"), "corr", "-out", d, "-clauses", clauses, "-n", str(ctx.scale(400, 6000)),
+    args = [os.path.join(C.BIN, "c15"), "corr", "-out", d, "-clauses", clauses, "-n", str(ctx.scale(1500, 6000)),
             "-per", str(ctx.scale(24, 64)), "-full", str(ctx.scale(0, 12)), "-corpus", os.path.join(C.VERIF, "corpus", "C15")]
     rc, out = C.sh(args, timeout=3000)
     ctx.log("corr", out[-1000:])
@@ -88,7 +88,7 @@ def run(ctx):
     if not build(ctx):
         return
     correspondence(ctx)
-    summ = oracle(ctx, ctx.scale(4000, 60000))
+    summ = oracle(ctx, ctx.scale(15000, 80000))
     ctx.add_summary(summ, "chain oracle")
     if ctx.tier == "thorough":
         ctx.cov["forbidden_vernacular"] = C.forbidden_vernacular()
